@@ -40,6 +40,9 @@ def _case(draw, tier):
         (3, ops.store_op(PIDS, 2, allow_none=True, validation=True)),
         (3, st.fixed_dictionaries({"op": st.just("tag"), "pid": st.sampled_from(PIDS),
                                    "cid": c_skew.map(lambda i: {"of": i})})),
+        # a cid string that is a case variant of a real one is a different (object-less) cid
+        (1, st.fixed_dictionaries({"op": st.just("tag"), "pid": st.sampled_from(PIDS),
+                                   "cid": c_skew.map(lambda i: {"of": i, "upper": True})})),
         (7, ops.delete_op(PIDS)),
         (4, ops.dii_op(2)),
         (1, ops.smeta_op(PIDS, FORMATS, 1)),
